@@ -120,6 +120,21 @@ func C03(e *Env) {
 		addr := p.HostPort()
 		worlds[aw] = &model.World{Root: root, AllowWrite: aw, Views: FullViews, Probe: func() error { return host.Probe(addr) }}
 	}
+	// the scripted histories run against the real binary as well: its file objects are afero's own
+	// (names relative to the root, no spy layer in between)
+	binProcs := map[bool]*host.Proc{}
+	if e.Bin != "" {
+		for _, aw := range []bool{false, true} {
+			args := []string{"server", "--root=" + root, "--listen-addr=127.0.0.1:0"}
+			if aw {
+				args = append(args, "--allow-write")
+			}
+			bp, err := host.SpawnBin(e.Bin, args, host.Opt{Dir: e.Dir("logs"), Tag: fmt.Sprintf("c03-bin-%v", aw)}, e.Dir("cwd"), true)
+			must(err)
+			defer bp.Stop()
+			binProcs[aw] = bp
+		}
+	}
 	alpha := c03Alphabet()
 	maxLen := e.Pick(2, 3)
 
@@ -192,6 +207,9 @@ func C03(e *Env) {
 		{"OPEN file", "READ 5@0", "OPEN CLOSEFILE", "READ 5@0"},
 		{"OPEN file", "OPEN missing", "READ 5@0"},
 		{"OPEN file", "OPEN dir", "READ 5@0"},
+		{"OPEN private old", "DELETE file", "OPEN private old", "READ 5@0"},
+		{"OPEN private old", "READ 5@0", "DELETE file", "OPEN private old", "READCRIT 7@10", "STAT missing"},
+		{"OPEN private old", "OPEN private old", "READ 5@0", "DELETE file", "OPEN private old", "READCD 0,1"},
 		{"OPEN file", "READCD 0,1", "OPEN private old", "READCD 0,1", "READCD 1,0", "READ 5@0"},
 		{"OPENDIR many", "READDIR", "STAT file", "OPENDIR many", "RDE", "RDE2", "READDIR", "STAT missing"},
 		{"CREATE new", "WRITE 5", "CREATE no-parent", "WRITE 5", "STAT missing", "OPEN private new", "READ 10@size-2"},
@@ -256,6 +274,25 @@ func C03(e *Env) {
 			}
 			judgeModelFail(e, res.Fail, reqs, res.FailAt, "", res.Fail.Feature, res.Fail.Detail, witness)
 			return
+		}
+		if bp := binProcs[cs.write]; cs.kind == "scripted" && bp != nil {
+			P2 := fmt.Sprintf("/w%07d", privSeq.Add(1))
+			privateTree(root, P2[1:])
+			defer os.RemoveAll(filepath.Join(root, P2[1:]))
+			reqs2 := make([]wire.Req, len(cs.syms))
+			for j, s := range cs.syms {
+				reqs2[j] = alpha[s].mk(P2)
+			}
+			baddr := bp.HostPort()
+			wb := &model.World{Root: root, AllowWrite: cs.write, Views: FullViews, Probe: func() error { return host.Probe(baddr) }}
+			res2 := RunLockstep(baddr, wb, reqs2, e.Watchdog, cs.chunk, true)
+			run.Eval(1)
+			if res2.Fail != nil {
+				wit2 := map[string]any{"kind": cs.kind, "target": "real binary", "allow_write": cs.write, "symbols": names, "requests": reqs2, "chunk": cs.chunk, "failed_at": res2.FailAt, "transcript": res2.Log}
+				judgeModelFail(e, res2.Fail, reqs2, res2.FailAt, "", "bin "+res2.Fail.Feature, "[real binary] "+res2.Fail.Detail, wit2)
+				return
+			}
+			run.Sig("scripted on binary aw=%v #%d", cs.write, i%64)
 		}
 		if cs.kind == "scripted" && os.Getenv("VERIF_DEBUG_SCRIPTED") != "" {
 			fmt.Printf("SCRIPTED aw=%v chunk=%d %v\n  %v\n", cs.write, cs.chunk, names, res.Oracle.Trace)
